@@ -377,7 +377,7 @@ impl Property for C04 {
     }
 
     fn rule() -> &'static str {
-        "one evaluation = one seeded scenario (argument sequence with its layout over input lines, initial arguments, any combination of -n/-L/-s/-x/-r with values near the interesting sizes, mode default/-0/-d, read plan, child-outcome script; 10% with RLIMIT_STACK and environment padding chosen so that the system limiter's budget is a few hundred bytes) run through xargs_main; oracle = history check of the spawn log against a greedy reference batcher; a 1/40 slice runs real children (argv as recorded by the seam, no access to xargs' own input stream); distinct = distinct abstract trace; non-trivial = a read fault or failing child fired, or a boundary probe hit (batch closed by each kind of limit, batch exactly filling -s, oversize argument, -x overflow, empty input with/without -r, tight system budget)"
+        "one evaluation = one seeded scenario (argument sequence with its layout over input lines, initial arguments, any combination of -n/-L/-s/-x/-r with values near the interesting sizes, mode default/-0/-d, read plan, child-outcome script; 10% with RLIMIT_STACK and environment padding chosen so that the system limiter's budget is a few hundred bytes) run through xargs_main; oracle = history check of the spawn log against a greedy reference batcher; a 1/40 slice runs real children (argv as recorded by the seam, no access to xargs' own input stream); 1/60 of the untight runs carry one argument 1-200 bytes short of the kernel's 128 KiB single-string limit; environment variables nobody should listen to in an eighth of the runs without -s; a slice of the scenarios also goes through the real xargs executable (standard input a pipe, a regular file, a regular file read from an offset: a difference is a violation); distinct = distinct abstract trace; non-trivial = a read fault or failing child fired, or a boundary probe hit (batch closed by each kind of limit, batch exactly filling -s, oversize argument, -x overflow, empty input with/without -r, tight system budget)"
     }
 
     fn components() -> Value {
